@@ -187,6 +187,15 @@ theorem scalarKeys_of_typed_aux (hws : w.SupU false) (hk : (KeysHP w)) :
             have := sizeOf_snd_lt_of_mem hp; simp; omega) hwf
         | _ => simp [wellTyped] at hwt
       | td c => simp [Ty.supU] at hs
+      | union ucs hn =>
+        cases x with
+        | none => rfl
+        | inst c fs =>
+          simp only [wellTyped, Bool.and_eq_true, List.contains_iff_mem] at hwt
+          have hcm : c ∈ ucs := by simpa using hwt.1
+          exact ihm (.cls c) (.inst c fs) hx (by have := sizeOf_cls_lt_union hcm hn; omega)
+            (by simp [keysHP]) (by simp [Ty.supU]) (by simp [wellTyped, hwt.2])
+        | _ => simp [wellTyped] at hwt
 
 theorem scalarKeys_of_typed (hws : w.SupU false) (hk : (KeysHP w)) {t : Ty} {x : Obj}
     (hp : (keysHP t) = true) (hs : t.supU false = true) (hwt : wellTyped w t x = true) : (scalarKeys x) = true :=
